@@ -46,6 +46,9 @@ type IdP struct {
 	Codes      map[string]CodeBehaviour
 	TokenCalls int
 	Log        []string
+	// OneTime: an authorization code is exchanged once (what real providers do); Used records the spent ones
+	OneTime bool
+	Used    map[string]bool
 }
 
 // CodeBehaviour scripts the token endpoint for one code.
@@ -143,8 +146,14 @@ func (p *IdP) respond(r *http.Request) (int, any, error) {
 		body, _ := io.ReadAll(r.Body)
 		vals, _ := url.ParseQuery(string(body))
 		cb, ok := p.Codes[vals.Get("code")]
-		if !ok || cb.Refuse {
+		if !ok || cb.Refuse || p.OneTime && p.Used[vals.Get("code")] {
 			return js(400, map[string]any{"error": "invalid_grant"})
+		}
+		if p.OneTime {
+			if p.Used == nil {
+				p.Used = map[string]bool{}
+			}
+			p.Used[vals.Get("code")] = true
 		}
 		switch cb.Fault {
 		case "500":
@@ -171,6 +180,7 @@ func InstallIdP() *IdP {
 		theIdP.SchedPoint = false
 		theIdP.Revoked = map[string]bool{}
 		theIdP.UserinfoCalls = map[string]int{}
+		theIdP.OneTime, theIdP.Used = false, nil
 		theIdP.Codes = map[string]CodeBehaviour{}
 		return theIdP
 	}
